@@ -62,9 +62,9 @@ CLAIMED = {
   technique=TECH + ": state machine over blocks, differential between replicas (restart / second process / delayed wall clock), shrinking to JSON replay",
   ref="DESIGN.md §4 C11"),
  "C12": dict(
-  text="Generated all-module histories on an ABCI node; at generated heights (as-is) and at the end (as-is and zero-height after the modules' own preparation) the state is exported and imported into a fresh application: import must be accepted and the registered invariants hold, exporting the imported application again must give the same genesis for each of the ten modules, and a catalogue of ~100-300 queries about durable objects (pools, farm pools and farmers with pending rewards, open HTLCs and asset supplies, tokens and burned totals, NFT/MT classes, holdings and supplies, service definitions/bindings/withdraw addresses/contexts, feeds with value history, pending random requests, every record by id) must answer byte-identically. Three recorded findings are excluded by narrowly named clauses whose hit counts are reported.",
-  note="Bounded random search (<=60 blocks, 4 funded users, default parameters except what histories change); queue membership after import is not observable through genesis or queries and is not asserted; SDK/IAVL/rapid trusted.",
-  technique=TECH + ": state machine over blocks, round-trip (export -> import -> export) and differential query oracle, shrinking to JSON replay",
+  text="Generated all-module histories on an ABCI node; at generated heights (as-is) and at the end (as-is and zero-height after the modules' own preparation) the state is exported and imported into a fresh application: import must be accepted and the registered invariants hold, exporting the imported application again must give the same genesis for each of the ten modules, and a catalogue of ~100-300 queries about durable objects (pools, farm pools and farmers with pending rewards, open HTLCs and asset supplies, tokens and burned totals, NFT/MT classes, holdings and supplies, service definitions/bindings/withdraw addresses/contexts, feeds with value history, pending random requests, every record by id) must answer byte-identically. At generated heights the imported application is also kept as a second chain that executes the rest of the history (including stretches of up to 60 empty blocks): it must complete every block, accept exactly the transactions the original accepts, keep its htlc/farm/service/random queues consistent with its objects after every block, and at the end export the same irismod genesis and answer the catalogue like the original; the chain restarted from the zero-height export runs eight empty blocks with the queue scans and the registered invariants. Four recorded findings are excluded by narrowly named clauses whose hit counts are reported.",
+  note="Bounded random search (<=60 block operations plus idle stretches, 4 funded users, default parameters except what histories change); a chain is not continued after import while it holds a running request context (F9e), service fee books (F27) or a pending service schedule entry, and the comparison ends at an oracle-seeded random request with several seed providers (the provider is drawn from the app hash, which a genesis does not carry); SDK/IAVL/rapid trusted.",
+  technique=TECH + ": state machine over blocks, round-trip (export -> import -> export), differential query oracle and metamorphic chain continuation (export/import commutes with block execution), shrinking to JSON replay",
   ref="DESIGN.md §4 C12"),
  "C13": dict(
   text="The all-module history generator on the ABCI driver (real FinalizeBlock with every module's begin and end blocker), biased towards objects that fall due in the block being built (farm pool at its start/end height: adjust, destroy, stake, harvest; request context with a batch starting or expiring: pause, start, kill, update; HTLC at its expiry: claim). After every block: the block completed without error or panic; HTLC expiry-queue entries are exactly the open contracts, none at or below the height, and the block's refund events are exactly the contracts open with that expiry; the farm queue holds exactly the pools not yet ended and ended pools hold no reward budget; every service queue entry names an existing context above the height, running contexts have exactly one entry, paused/killed ones at most one; the random queue holds nothing below the height and every plain request due was answered by exactly one event and is readable.",
@@ -73,7 +73,7 @@ CLAIMED = {
   ref="DESIGN.md §4 C13"),
  "C14": dict(
   text="rapid state machine over issue-class (all four flag combinations) / mint / edit / transfer (all-sentinel, one field changed, mixed; to self) / burn / class hand-over by owners, creators and strangers over regular and odd ids; a reference map predicts acceptance exactly for every clause (owner-only edit/transfer/burn, mint restriction, update restriction on edit and on transfer-with-changes, creator-only hand-over, no id reuse while a token exists) and after every message every query (Denom, Denoms, Collection, NFT, Supply per class and per owner with their sum, NFTsOfOwner) and the supply invariant are compared with the model.",
-  note="Bounded random search (14 class ids, 9 token ids, 4 senders, <=40-80 ops); input-syntax rules follow the code where it is laxer (counted); SDK/rapid trusted.",
+  note="Bounded random search (14 class ids, 9 token ids plus one burst of 101-130 tokens in one class, 4 senders, <=40-80 ops); input-syntax rules follow the code where it is laxer (counted); SDK/rapid trusted.",
   technique=TECH + ": state machine vs reference map with exact acceptance prediction, shrinking to JSON replay",
   ref="DESIGN.md §4 C14"),
  "C15": dict(
